@@ -204,3 +204,13 @@ claim("C25", SM,
       "tree); recorded random histories over 9-byte sources are validated by TLC.",
       "TLC; parsed PE/ELF containers are not driven; the source changes only outside atomic sections; no zero-length byte reads",
       "DESIGN.md 5/C25", "BinStream")
+
+claim("C27", SM,
+      "Graph.tla states every algorithm by its definition over paths / reachability (dominates = every path from the head goes "
+      "through; immediate dominator; dominator tree; dominance frontier; back edges; natural loops; SCC / WCC as reachability "
+      "classes; reachable sets; cycle existence; simple paths) and the DiGraph mutation API as a state machine whose projection is "
+      "the whole analysis for every head and leaf. TLC evaluates the definitions on all graphs with <= 3 nodes, on all 65536 graphs "
+      "with 4 nodes (thorough; a seeded sample in quick) and on sampled 5-node graphs, and explores add/delete node/edge histories; "
+      "every result is compared with DiGraph (dominators, post-dominators, immediate ones, tree, frontier, back edges, loops, "
+      "components, sons/parents, heads/leaves, has_loop, find_path and find_path_from_src).",
+      "TLC; 5-node graphs sampled, larger graphs not explored; simple paths only (cycles_count = 0)", "DESIGN.md 5/C27", "Graph")
